@@ -666,6 +666,7 @@ struct Denoter {
     if (r * (long)c > 10000) throw Unsupported{"huge dimension"};
   }
 
+  int parse_time = 0;
   Val eval(const EP& e) {
     switch (e->k) {
       case K_NUM: if (!e->num.empty && std::isinf(e->num.hi)) throw Reject{"literal larger than the largest binary64 number"};
@@ -673,7 +674,8 @@ struct Denoter {
       case K_PI: { CI p(3.141592653589793115997963468544185161590576171875, 3.141592653589793560087173318606801331043243408203125); return cscalar(p); }
       case K_INF: { CI x; x.inf = 1; x.empty = true; return cscalar(x); }
       case K_ITV: {
-        Val a = eval(e->a[0]), b = eval(e->a[1]);
+        // (the bounds are evaluated while the text is read: an iterator has no value there)
+        parse_time++; Val a, b; try { a = eval(e->a[0]); b = eval(e->a[1]); } catch (...) { parse_time--; throw; } parse_time--;
         if (!a.isconst || !b.isconst) throw Reject{"constant expected in interval bounds"};
         if (!a.scalar() || !b.scalar()) throw Reject{"scalar expected in interval bounds"};
         const CI& x = a.cst[0]; const CI& y = b.cst[0];
@@ -684,7 +686,7 @@ struct Denoter {
       }
       case K_SYM: {
         Sym* s = find(e->name); if (!s) throw Reject{"unknown symbol " + e->name};
-        if (s->k == Parser::S_ITER) return cscalar(CI((double)s->iter));
+        if (s->k == Parser::S_ITER) { if (parse_time) throw Reject{"iterator used where a constant is required"}; return cscalar(CI((double)s->iter)); }
         if (s->k == Parser::S_FUNC) throw Reject{"function used as a value"};
         if (s->k == Parser::S_VAR) { if (s->gen != curgen) { s->v = nval(emit("v:" + std::to_string(s->off), {}, "", s->r, s->c), s->r, s->c); s->gen = curgen; } return s->v; }
         if (s->k == Parser::S_TMP && s->def) { // temporary symbol of the constraint block: expanded in the scopes of its declaration
@@ -742,7 +744,7 @@ struct Denoter {
           Sym s; s.k = Parser::S_TMP; s.def = it->l; s.depth = scopes.size(); scopes.back()[it->name] = s; break; }
         case Item::CTR: { start_dag(); Val a = eval(it->l), b = eval(it->r); M.ctrs.push_back({cmpname(it->op), rooted(add(a, b, true))}); break; }
         case Item::IN: {
-          start_dag(); Val e = eval(it->l); Val d = eval(it->r);
+          start_dag(); Val e = eval(it->l); parse_time++; Val d; try { d = eval(it->r); } catch (...) { parse_time--; throw; } parse_time--;   // (the right side of `in` is evaluated while the text is read)
           if (!d.isconst) throw Reject{"constant interval expected after in"}; if (!d.scalar()) throw Reject{"interval expected"};
           const CI& x = d.cst[0]; if (x.inf) throw Reject{"unexpected infinity symbol"}; if (x.empty) throw Unsupported{"empty interval after in"};
           if (!e.scalar()) throw Reject{"cannot subtract a scalar from a vector/matrix"};
